@@ -95,6 +95,7 @@ package mount
 //@                     forall(k, string, implies(k != p, in(k, dom(fs.mounts)) == old(in(k, dom(fs.mounts))) && fs.mounts[k] == old(fs.mounts[k]))))
 //@   ensures "fail-unchanged" implies(err != nil, forall(k, string, in(k, dom(fs.mounts)) == old(in(k, dom(fs.mounts))) && fs.mounts[k] == old(fs.mounts[k])))
 //@   ensures "must-be-dir" implies(err == nil, old(amOpenErr(fs, p)) == nil && old(amStatErr(fs, p)) == nil && old(amIsDir(fs, p)))
+//@   ensures "mounts" [C06] implies(VP(p) && p != "." && !old(in(p, dom(fs.mounts))) && old(amOpenErr(fs, p)) == nil && old(amStatErr(fs, p)) == nil && old(amIsDir(fs, p)), err == nil)   // a free mount point that is a directory is never refused
 //@   ensures "keys-valid" forall(k, dom(fs.mounts), VP(k) && k != "." && fs.mounts[k] != nil)
 //@   nopanic
 
